@@ -63,7 +63,12 @@ fn segments(s: &str) -> Vec<String> {
 
 fn key_template() -> BoxedStrategy<String> {
     // documented keys with grammar-conforming specs, joined by literals and newlines
-    let key = proptest::sample::select(c10::DOCUMENTED[..28].to_vec());
+    // (one key in twelve is not a documented one: names that share a prefix or a suffix with the built-in
+    // families are accepted by the parser and render as nothing)
+    let key = prop_oneof![
+        11 => proptest::sample::select(c10::DOCUMENTED[..28].to_vec()),
+        1 => proptest::sample::select(vec!["items_per_sec", "bits_per_sec", "_per_sec", "x_bytes_per_sec", "etaa", "eta_", "pos_", "binary_", "total_", "human_", "wide_", "elapsed_", "duration_x", "percent_", "ck2"]),
+    ];
     let spec = (
         proptest::option::weighted(0.5, prop_oneof![Just("<"), Just("^"), Just(">")]),
         proptest::option::weighted(0.7, prop_oneof![6 => 0u32..30, 2 => 30u32..300, 1 => prop_oneof![Just(1000u32), Just(65535)], 1 => prop_oneof![Just(65536u32), Just(65537), Just(70000)]]),
